@@ -52,6 +52,13 @@ def generate(rng, tier):
         for _ in range(2):
             out.append((G.case_text(rules, root, rand_ws_input(rng, 6), offset=rng.choice([2, 3, 7, 17, 60]), flags=0),
                         {"stream": "token-seq" if i % 3 == 0 else "random"}))
+    # far placements: the file sits behind 16 MiB+ of other files (positions need more than 24 bits)
+    for i in range(6 if tier == "quick" else 40):
+        rules, root = G.rand_grammar(rng, G.MONO + ['memo', 'memo'], max_rules=3)
+        if engcommon.k1_shape(rules, root) or engcommon.exponential_shape(rules, root):
+            continue
+        out.append((G.case_text(rules, root, G.rand_input(rng, 5), offset=(1 << 24) + rng.randrange(1, 1000), flags=0),
+                    {"stream": "far-placement"}))
     # literal terminals (Word/Bool/Nil use MatchWord, Integer a look-ahead, String a custom reader): same shift relation
     for i in range(n // 2):
         # every third: the JSON-shaped / arithmetic-shaped workload grammars in miniature
